@@ -3,4 +3,7 @@
 set -e
 cd "$(dirname "$0")"
 export GOFLAGS=-mod=mod GOPROXY=off GOSUMDB=off GOTOOLCHAIN=local
-(cd lean && lake build 2>&1 | tail -5)
+mkdir -p harness/bin .cache replays evidence
+(cd harness && cat /repo/go.sum /repo/example/go.sum | sort -u > go.sum && go build -tags verif -o bin/extract ./cmd/extract && go build -tags verif -o bin/corr ./cmd/corr)
+./harness/bin/extract -repo /repo -out lean/Csproto/Generated >/dev/null
+(cd lean && lake build 2>&1 | tail -3)
